@@ -121,6 +121,10 @@ def r_C03eval(root):
     for src, spec, want in grammars:
         names = list(spec)
         orders = [names, list(reversed(names))]
+        from sa import util as _u
+        if _u.TIER == "thorough":         # every rotation and its reverse: each class is visited first / last once
+            for i_ in range(1, len(names)):
+                rot = names[i_:] + names[:i_]; orders += [rot, list(reversed(rot))]
         for order in orders:
             inst += 1
             err, got = run(spec, order)
@@ -131,6 +135,6 @@ def r_C03eval(root):
                     gk, gi = got[n]
                     if gk != k_: bad = "rule %s is typed %s, documented %s" % (n, gk, k_); break
                     if k_ == "abstract" and (sorted(gi) != sorted(inh)): bad = "the inheritors of the abstract rule %s are %s, documented %s" % (n, gi, inh); break
-            ob("C03", "C03.m", L, W, "%s  (classes visited %s)" % (src[:70], "in grammar order" if order is names else "in reverse order"), bad is None)
-            if bad: out.append(Finding("C03", "C03.m", L, W, src, "for the grammar  %s  (%s): %s" % (src, "classes visited in grammar order" if order is names else "classes visited in reverse order", bad), witness=src))
+            ob("C03", "C03.m", L, W, "%s  (classes visited %s)" % (src[:70], "in grammar order" if order is names else ("in reverse order" if order == list(reversed(names)) else "starting with %s" % order[0])), bad is None)
+            if bad: out.append(Finding("C03", "C03.m", L, W, src, "for the grammar  %s  (%s): %s" % (src, "classes visited in grammar order" if order is names else "classes visited in the order %s" % order, bad), witness=src))
     return inst, out
